@@ -237,11 +237,15 @@ namespace nmtools::utl
         void push_back(const T& t)
         {
             if (buffer_size_ < (size_ + 1)) {
+                // t may refer to an element of this vector (v.push_back(v[0])):
+                // resize releases the old block, so take the value first
+                const T value = t;
                 resize(size_ + 1);
+                buffer_[size_-1] = value;
             } else {
                 size_ = size_ + 1;
+                buffer_[size_-1] = t;
             }
-            buffer_[size_-1] = t;
         }
 
         // TODO: support emplace_back
